@@ -239,13 +239,14 @@ Fixpoint seq_loop (fuel : nat) (cf : cfg) (st : pst) (c : ch) (it : iter) (resul
         match vres with
         | Stop => Stop | Fuel => Fuel
         | Ok (value, it1) =>
-          let '(result1, end_range1, removed1) :=
+          (* the end of a range may be an escape (two characters): the position after it is where a hyphen is literal *)
+          let '(result1, end_range1, removed1, escape_hyphen1) :=
             if negb (Z.eqb end_range 0) && Z.leb end_range (idx it1 - 1) then
-              let '(r, rm) := range_check result0 value in (r, 0, removed || rm)
-            else (value :: result0, end_range, removed) in
+              let '(r, rm) := range_check result0 value in (r, 0, removed || rm, idx it1)
+            else (value :: result0, end_range, removed, escape_hyphen) in
           match next it1 with
           | None => Stop
-          | Some (c', it') => seq_loop f cf st c' it' result1 end_range1 escape_hyphen removed1 false
+          | Some (c', it') => seq_loop f cf st c' it' result1 end_range1 escape_hyphen1 removed1 false
           end
         end
   end.
